@@ -40,6 +40,9 @@ SEQ_MAPS_SEQ = ['list', 'tupled']
 SEQ_PREDS = ['nonempty', 'len_lt2']
 
 
+build.LAMBDAS['spawn'] = build.NamedFn('spawn', iter_ref.spawn)
+
+
 def budget(tier):
     if tier == 'thorough':
         return {'seeds': 400000, 'wall': 900, 'chunk': 100}
@@ -55,6 +58,9 @@ def gen_chain(rng, max_stages=4):
         st = gen_stage(rng, kind)
         stages.append(st[0])
         kind = st[1]
+    if kind == 'lazyseq':
+        stages.append(['flatten'])
+        kind = 'int'
     r = rng.random()
     if r < 0.45:
         terminal = None
@@ -68,9 +74,14 @@ def gen_chain(rng, max_stages=4):
 
 def gen_stage(rng, kind):
     """-> (stage recipe with function *names*, resulting element kind)"""
+    if kind == 'lazyseq':
+        return ['flatten'], 'int'
     if kind == 'int':
         c = rng.choice(['map', 'filter', 'slice', 'limit', 'takewhile', 'dropwhile', 'chunked', 'windowed',
-                        'split', 'unique', 'filter', 'map'])
+                        'split', 'unique', 'filter', 'map', 'spawn'])
+        if c == 'spawn':
+            # each element becomes a lazy sub-stream (only flatten() may follow)
+            return ['map', 'spawn'], 'lazyseq'
         if c == 'map':
             return ['map', rng.choice(INT_MAPS)], 'int'
         if c == 'filter':
@@ -114,7 +125,10 @@ def gen_case(seed, tier):
     sources = []
     for _ in range(nsrc):
         inf = rng.random() < 0.25
-        sources.append({'items': [rng.randint(0, 9) for _ in range(rng.randint(0 if not inf else 1, 12))], 'inf': inf})
+        # (with a sentinel, the source may contain the sentinel value itself: it ends the stream only
+        # when it is what the SUBSPEC yields for an element, e.g. 'inc' turns -1 into 0 and goes on)
+        lo = -1 if chain['sentinel'] == -1 and rng.random() < 0.5 else 0
+        sources.append({'items': [rng.randint(lo, 9) for _ in range(rng.randint(0 if not inf else 1, 12))], 'inf': inf})
     mode = rng.choice(['prefix', 'prefix', 'alternate', 'builder', 'builder', 'fault', 'abandon', 'invoke'])
     case = {'prop': PROP, 'seed': seed, 'knobs': simrun.draw_knobs(rng), 'chain': chain, 'sources': sources,
             'mode': mode}
@@ -134,6 +148,8 @@ def gen_case(seed, tier):
             for _ in range(rng.randint(1, 2)):
                 st, k2 = gen_stage(rng, k2)
                 ex.append(st)
+            if k2 == 'lazyseq':
+                ex.append(['flatten'])
             extra.append(ex)
         case['extra'] = extra
         case['chain']['terminal'] = None
@@ -167,6 +183,8 @@ def _kind_after(st, kind):
     if n == 'flatten':
         return 'int'
     if n == 'map':
+        if st[1] == 'spawn':
+            return 'lazyseq'
         if st[1] in SEQ_MAPS_INT:
             return 'int'
         if st[1] in SEQ_MAPS_SEQ:
@@ -212,6 +230,8 @@ def ref_prefix(chain, src, k, stages=None):
     c = iter_ref.Counting(src['items'], src['inf'], limit=REF_LIMIT)
     out = []
     exhausted = False
+    iter_ref.SPAWN['pulled'] = 0
+    ref_prefix.inner = None
     try:
         # (windowed_iter pulls at construction, so building the pipeline can already hit the budget)
         it = iter_ref.pipeline(c, chain['sub'], chain['sentinel'], chain['stages'] if stages is None else stages)
@@ -223,6 +243,7 @@ def ref_prefix(chain, src, k, stages=None):
                 break
     except RuntimeError:
         return None
+    ref_prefix.inner = iter_ref.SPAWN['pulled']
     return out, exhausted, c.pulled
 
 
@@ -335,10 +356,13 @@ def _mode_prefix(case, V, st, digests):
         if ref is None:
             st('reference_budget_skip')
             continue
+        ref_inner = ref_prefix.inner
         W = World(case)
         s = W.source(src)
         spec = W.B.spec(spec_recipe(chain))
+        iter_ref.SPAWN['pulled'] = 0
         res = W.k.run_single(lambda: _pull(iter(W.G.glom(s, spec)), k))
+        got_inner = iter_ref.SPAWN['pulled']
         digests.append(W.k.digest())
         st('evaluations')
         st('consumer_steps', k)
@@ -352,6 +376,12 @@ def _mode_prefix(case, V, st, digests):
         if s._pulled > ref[2] + slack_of(chain['stages']):
             V('laziness', 'prefix-overpull', {'k': k, 'reference_pulls': ref[2]}, s._pulled)
             return
+        if got_inner > ref_inner + slack_of(chain['stages']):
+            # flatten() hands on the items of a sub-stream as they are asked for
+            V('laziness', 'sub-stream-overpull', {'k': k, 'reference_pulls': ref_inner}, got_inner)
+            return
+        if ref_inner:
+            st('reach.lazy_sub_streams')
         if src['inf']:
             st('reach.infinite_source_prefix')
 
